@@ -15,7 +15,7 @@ META = {
               'no periodic shift — a cell that also lists its neighbours\' copies of wrapped faces, or misses one of its own, is not a closed surface (sum of area*normal != 0)',
         'R1': 'stored plane normals are unit and inward: every HalfSpace constructed on a path reachable by users is built with n == (L-R)/|L-R| (builder: n.n == 1, '
               'n.(L-R) == |L-R| > 0) or with an axis unit vector pointing into the box (walls)',
-        'R2': 'the face normal is the outward one: VoronoiFace::normal() == -1 * (normal of the plane the face was created for), hence (R-L)/|R-L| resp. outward through the wall',
+        'R2': 'the face normal is the outward one: VoronoiFace::normal() == -1 * (normal of the plane the face was created for), hence (R-L)/|R-L| resp. outward through the wall; left / right / shift of a record are written only at construction (and by the public setters, which the crate itself never calls)',
         'R3': 'area/centroid weights: both face accumulators add signed_area_tri(v0,v1,v2,gen) to the area and area*(v0+v1+v2) to the centroid, and normalise by 1/(3*area) exactly when area > 0 (else 0); '
               'the accessor returns those fields',
         'R5': 'translation conditioning of the area kernels (C02.R5 restricted to signed_area_tri and the face accumulators)',
@@ -118,7 +118,36 @@ def face_integral_impls(F):
     return out
 
 
+def sides_fixed_at_construction(ctx, F, rule, sfx):
+    """left / right / shift of a face record are what the constructing cell wrote (`FaceIntegrator::init`); the normal is computed for that orientation.
+    Nothing in the crate relabels a record afterwards: no write to these three fields outside `init` and the three public setters, and no call of a
+    setter from inside the crate (a face relabelled "lower index on the left" keeps a normal that now points towards its left generator)."""
+    SETTERS = ('VoronoiFace::set_left', 'VoronoiFace::set_right', 'VoronoiFace::set_shift')
+    writes, calls_ = [], []
+    n = 0
+    for b in F.bodies:
+        if '::tests::' in b['path'] or 'convex_cell_alternative' in b['path']:
+            continue
+        p_ = strip_generics(b['path'])
+        for bl in b['blocks']:
+            for st in bl['stmts']:
+                if st['k'] == 'assign':
+                    for e in st['place'].get('p', []):
+                        if e.get('k') == 'field' and strip_generics(e.get('adt') or '') == 'voronoi::integrals::FaceIntegrator' and e.get('n') in ('left', 'right', 'shift'):
+                            n += 1
+                            if not p_.endswith(SETTERS) and not p_.endswith('FaceIntegrator::init'):
+                                writes.append('%s writes .%s (line %s)' % (p_.split('::')[-1], e['n'], st.get('line')))
+            t = bl.get('term') or {}
+            if t.get('k') == 'call':
+                c = strip_generics(t.get('resolved') or t.get('callee') or '')
+                if c.endswith(SETTERS):
+                    calls_.append('%s calls %s (line %s)' % (p_.split('::')[-1], c.split('::')[-1], t.get('line')))
+    ctx.check(rule, 'sides-fixed-at-construction' + sfx, not writes and not calls_, (writes + calls_)[:3] or '%d writes of left / right / shift, all in FaceIntegrator::init or the public setters; no setter called inside the crate' % n,
+              'a face record keeps the left / right / shift (and with them the orientation of its normal) it was constructed with', None, key_extra='relabel')
+
+
 def r2(ctx, F, rule, sfx):
+    sides_fixed_at_construction(ctx, F, rule, sfx)
     impls = [x for x in face_integral_impls(F) if 'normal' in x[2]]
     if len(impls) != 1:
         raise AnalysisIncomplete('face integrals carrying a normal: %d' % len(impls))
